@@ -100,6 +100,13 @@ type Gen struct {
 }
 
 func NewGen(p *Prog) *Gen {
+	g := newGen0(p)
+	g.sorts = NewSorts()
+	g.regHeap("Alloc", SInt)
+	return g
+}
+
+func newGen0(p *Prog) *Gen {
 	return &Gen{P: p, sorts: p.sorts, heapSorts: map[string]string{}, declared: map[string]bool{}, fieldIDs: map[string]int{},
 		strLits: map[string]string{}, typeTags: map[string]int{}, trusted: map[string]bool{}, ghost: map[string]bool{}, funcIDs: map[string]int{}, uf: map[string]bool{}}
 }
